@@ -42,32 +42,87 @@ def vs? (o : OpLine) : Option (List V) := (o.nats? "vs").bind fun l => l.mapM v?
 
 def b2s (b : Bool) : String := if b then "1" else "0"
 
+/-- a candidate of a history op: attribute keys without repetition (a contract map), six locode field bits -/
+def cand? (o : OpLine) : Option Cand := do
+  let k ← o.nat? "k"
+  let st ← (o.nat? "st").bind state?
+  let addrs ← bits? o "addrs"
+  let attrs ← (o.get? "attrs").map fun s => if s == "-" then [] else s.splitOn ","
+  let av ← o.nat? "av"
+  let dom ← o.nat? "dom"
+  let lc ← flag? o "lc"
+  let lck ← flag? o "lck"
+  let lcf ← bits? o "lcf"
+  if !nodup attrs || lcf.length != 6 || dom > 2 || k == 0 || k > 5 then none
+  else some { key := k, state := st, addrsOk := addrs, attrKeys := attrs, attrVal := av, domain := dom,
+              hasLocode := lc, locodeKnown := lck, locodeFields := lcf }
+
+def epochObs (s : St) (out : List Nat) : String :=
+  s!"=> req={showNats out} counter={s.counter} resets={s.timerResets}"
+
+def admissionObs (n : Node) (vs : List V) : Outcome → String
+  | .ignored => "=> notary=0 script=0 calls=0 by=-"
+  | .badScript => "=> notary=0 script=1 calls=0 by=-"
+  | .badNode => "=> notary=0 script=1 calls=0 by=-"
+  | .rejected i => s!"=> notary=0 script=1 calls={calledCount n vs} by={i}"
+  | .approved => s!"=> notary=1 script=1 calls={calledCount n vs} by=-"
+
+def hist (s : HSt) (o : OpLine) : Option (HSt × String) :=
+  match o.name with
+  | "hinit" => do
+    let vs ← vs? o
+    let al ← flag? o "alpha"
+    let c ← o.nat? "counter"
+    let s' : HSt := { ep := ⟨c, al, 0⟩, vs := vs }
+    some (s', epochObs s'.ep [])
+  | "hnns" => do
+    let recs ← o.nats? "recs"
+    let down ← flag? o "down"
+    some ((hstep s (.setNns (recs.map fun r => (r / 10, r % 10)) down)).1, "=> ok")
+  | "hserve" => do
+    let k ← o.nat? "k"
+    let up ← flag? o "up"
+    if up then
+      let c ← cand? o
+      if c.key != k then none else some ((hstep s (.serve k (some c))).1, "=> ok")
+    else some ((hstep s (.serve k none)).1, "=> ok")
+  | "hext" => do
+    let deny ← o.nats? "deny"
+    some ((hstep s (.setExt deny)).1, "=> ok")
+  | "hchain" => do
+    let keys ← o.nats? "keys"
+    let down ← flag? o "down"
+    some ((hstep s (.setChain keys down)).1, "=> ok")
+  | "hadd" => do
+    let halts ← flag? o "halts"
+    let c ← cand? o
+    match hstep s (.addNode halts c) with
+    | (s', .admission out _) => some (s', admissionObs (view s.w c) s.vs out)
+    | _ => none
+  | "hupd" =>
+    match hstep s .updPeer with
+    | (s', .peer out) => some (s', if out == .approved then "=> notary=1" else "=> notary=0")
+    | _ => none
+  | "htick" =>
+    let (s', out) := hstep s .tick
+    some (s', epochObs s'.ep out.reqs)
+  | "halpha" => do
+    let b ← flag? o "b"
+    let (s', out) := hstep s (.setAlphabet b)
+    some (s', epochObs s'.ep out.reqs)
+  | "hepoch" => do
+    let e ← o.nat? "e"
+    match hstep s (.newEpoch e) with
+    | (s', .epoch pl h) =>
+      some (s', epochObs s'.ep [] ++ s!" placement={b2s pl} sync={b2s h} deposit={b2s h} map={showNats s'.curMap}")
+    | _ => none
+  | _ => none
+
 end IRN
 
-def irnStep (s : St) (o : OpLine) : St × String :=
+/-- legacy epoch ops (`init`, `tick`, `newepoch`, `alpha`) work on the epoch part of the history state -/
+def irnEpochStep (s : St) (o : OpLine) : St × String :=
   match o.name with
-  | "validate" =>
-    match IRN.node? o, IRN.vs? o with
-    | some n, some vs =>
-      match firstError n vs 0 with
-      | none => (s, s!"=> ok calls={calledCount n vs}")
-      | some i => (s, s!"=> err by={i} calls={calledCount n vs}")
-    | _, _ => (s, "=> bad-op")
-  | "addnode" =>
-    match IRN.node? o, IRN.vs? o, IRN.flag? o "alpha", IRN.flag? o "halts" with
-    | some n, some vs, some al, some halts =>
-      let conv := n.state == .online || n.state == .maintenance
-      match processAddNode al halts conv vs n with
-      | .ignored => (s, "=> notary=0 script=0 calls=0 by=-")
-      | .badScript => (s, "=> notary=0 script=1 calls=0 by=-")
-      | .badNode => (s, "=> notary=0 script=1 calls=0 by=-")
-      | .rejected i => (s, s!"=> notary=0 script=1 calls={calledCount n vs} by={i}")
-      | .approved => (s, s!"=> notary=1 script=1 calls={calledCount n vs} by=-")
-    | _, _, _, _ => (s, "=> bad-op")
-  | "updpeer" =>
-    match IRN.flag? o "alpha" with
-    | some al => (s, if processUpdatePeer al == .approved then "=> notary=1" else "=> notary=0")
-    | none => (s, "=> bad-op")
   | "init" =>
     match o.nat? "counter", IRN.flag? o "alpha" with
     | some c, some al => let s' : St := ⟨c, al, 0⟩; (s', s!"=> req=- counter={c} resets=0")
@@ -84,5 +139,32 @@ def irnStep (s : St) (o : OpLine) : St × String :=
     | some b => let (s', out) := step s (.setAlphabet b); (s', s!"=> req={showNats out} counter={s'.counter} resets={s'.timerResets}")
     | none => (s, "=> bad-op")
   | _ => (s, "=> bad-op")
+
+def irnStep (s : HSt) (o : OpLine) : HSt × String :=
+  match o.name with
+  | "validate" =>
+    match IRN.node? o, IRN.vs? o with
+    | some n, some vs =>
+      match firstError n vs 0 with
+      | none => (s, s!"=> ok calls={calledCount n vs}")
+      | some i => (s, s!"=> err by={i} calls={calledCount n vs}")
+    | _, _ => (s, "=> bad-op")
+  | "addnode" =>
+    match IRN.node? o, IRN.vs? o, IRN.flag? o "alpha", IRN.flag? o "halts" with
+    | some n, some vs, some al, some halts =>
+      let conv := n.state == .online || n.state == .maintenance
+      (s, IRN.admissionObs n vs (processAddNode al halts conv vs n))
+    | _, _, _, _ => (s, "=> bad-op")
+  | "updpeer" =>
+    match IRN.flag? o "alpha" with
+    | some al => (s, if processUpdatePeer al == .approved then "=> notary=1" else "=> notary=0")
+    | none => (s, "=> bad-op")
+  | "init" | "tick" | "newepoch" | "alpha" =>
+    let (e, out) := irnEpochStep s.ep o
+    ({ s with ep := e }, out)
+  | _ =>
+    match IRN.hist s o with
+    | some r => r
+    | none => (s, "=> bad-op")
 
 end NeoFS.Driver
